@@ -57,6 +57,9 @@ var knownWarriors = []string{
 	"jmp 0\n",
 	"spl 1\nmov -1, 0\nmov -1, 0\nmov 0, 1\n",
 	"mov 0, 1\nend 0\n",
+	"jmp 0\ndat 0, 010", // a number with leading zeros as the very last thing in the file
+	"spl 0\nmov 0, 1\ndat 008, 0009",
+	"add #0010, 1\njmp -1, 0001\n",
 }
 
 func genCLI(out *bufio.Writer, rng *rand.Rand, count int) int {
